@@ -596,4 +596,21 @@ def judgeWithinLimits (T : Ty) (txt : List Nat) : Complaints :=
     chk (c == 0 || leScaled 1 f.qmin c e) "C18" "a non-zero finite value of the type prints as a magnitude below MIN_POSITIVE"
   | _, _ => []
 
+/-- `try_from_le_bytes` on a slice given by its length only (half-gigabyte slices do not travel through the line protocol):
+    the same judgement as `judgeTryLe`, which looks at the length and at "stored verbatim" only.
+    `ok = some (n, verbatim)`: accepted, `as_le_bytes()` has `n` bytes and equals the input. -/
+def judgeTryLeLen (T : Ty) (len : Nat) (ok : Option (Nat × Bool)) (err : Option ErrFacts) : Complaints :=
+  match ok, err with
+  | some (n, v), _ => chk (T.holds len) "C16" s!"accepted length {len}" ++ chk (n == len && v) "C16" "bytes not stored verbatim"
+  | none, some f =>
+    chk (!T.holds len) "C16" s!"rejected valid length {len}" ++
+    (if len == 0 || len % 4 != 0 then
+       chk (f.kind == "size" && f.a == len && f.b == len + 4 - len % 4) "C17"
+         s!"length error should name {len} and {len + 4 - len % 4}, got {f.kind} {f.a} {f.b}"
+     else if !T.holds len then
+       chk (f.kind == "overflow" && (T.capN).all (f.a == 4 * ·) && f.b == len) "C17"
+         s!"length error should name the capacity and {len}, got {f.kind} {f.a} {f.b}"
+     else [])
+  | none, none => [("C16", "no answer")]
+
 end Decstr.Spec
